@@ -19,12 +19,14 @@ type Field struct {
 	HasDef  bool   `json:"has_def,omitempty"` // pointer kinds: a non-null default is declared
 	Disc    int    `json:"disc"`              // discriminant value, -1 = not a union member
 	Ref     int    `json:"ref"`               // enum / struct / group index
+	GoName  string `json:"go_name,omitempty"` // $Go.name annotation: the accessors are named after this instead of Name
 	Elem    string `json:"elem,omitempty"`    // list element kind
 	ElemRef int    `json:"elem_ref,omitempty"`
 }
 
 type Struct struct {
-	Name      string  `json:"name"` // Go name the generator must derive (S3, S3_g1, ...)
+	Name      string  `json:"name"`              // Go name the generator must derive (S3, S3_g1, ...; the $Go.name annotation's value if Renamed)
+	Renamed   bool    `json:"renamed,omitempty"` // top-level structs: Name comes from a $Go.name annotation, Short is the schema name
 	Short     string  `json:"short"`
 	ID        uint64  `json:"id"`
 	DataWords int     `json:"data_words"`
@@ -41,6 +43,7 @@ type Enum struct {
 	Name   string   `json:"name"`
 	ID     uint64   `json:"id"`
 	Values []string `json:"values"`
+	GoVals []string `json:"go_values,omitempty"` // per value: $Go.name annotation ("" = none)
 }
 
 // Iface: an interface node without methods; fields of kind "interface" hold capabilities of that type.
@@ -338,6 +341,9 @@ func (g *gen) fields(si int, sp *space, depth int) {
 		if isMember[k] {
 			result.merge(overlay)
 		}
+		if f.Kind != "group" && rapid.IntRange(0, 7).Draw(t, "rename") == 0 {
+			f.GoName = fmt.Sprintf("rn%d", k) // $Go.name: nothing else in the struct is called rn<k>
+		}
 		g.m.Structs[si].Fields = append(g.m.Structs[si].Fields, f)
 	}
 	if result != nil {
@@ -384,6 +390,11 @@ func GenModel(t *rapid.T) Model {
 		e := Enum{Name: fmt.Sprintf("E%d", i), ID: g.id()}
 		for k, nv := 0, rapid.IntRange(1, 6).Draw(t, "nvals"); k < nv; k++ {
 			e.Values = append(e.Values, fmt.Sprintf("v%d", k))
+			gn := ""
+			if rapid.IntRange(0, 5).Draw(t, "vrename") == 0 {
+				gn = fmt.Sprintf("named%d", k)
+			}
+			e.GoVals = append(e.GoVals, gn)
 		}
 		m.Enums = append(m.Enums, e)
 	}
@@ -393,7 +404,11 @@ func GenModel(t *rapid.T) Model {
 	nstructs := rapid.IntRange(3, 10).Draw(t, "nstructs")
 	// declare the top-level structs first so that fields can refer to any of them
 	for i := 0; i < nstructs; i++ {
-		m.Structs = append(m.Structs, Struct{Name: fmt.Sprintf("S%d", i), Short: fmt.Sprintf("S%d", i), ID: g.id(), Parent: -1, Root: i})
+		st := Struct{Name: fmt.Sprintf("S%d", i), Short: fmt.Sprintf("S%d", i), ID: g.id(), Parent: -1, Root: i}
+		if rapid.IntRange(0, 5).Draw(t, "srename") == 0 {
+			st.Name, st.Renamed = fmt.Sprintf("Renamed%d", i), true // groups inside are named after the new name
+		}
+		m.Structs = append(m.Structs, st)
 	}
 	for i := 0; i < nstructs; i++ {
 		words := rapid.IntRange(1, 5).Draw(t, "words")
